@@ -252,6 +252,20 @@ fn stored_eq_source_corner(rep: &Report, seed: u64, tier: Tier) {
                 return Err(format!("clone failed: {}", o.tail()));
             }
             judge_output(std::fs::read(&out).ok(), &source, "cli-local")?;
+            // The library writer has its own copy of the store-uncompressed rule.
+            let lcase = CCase { src_seed: 0, src_class: crate::gen::SrcClass::Random, src_len: source.len(), len_class: "corner".into(), spec: spec.clone(), writer: super::ccommon::Writer::Lib };
+            let lobs = ccommon::run_lib(&dir, "l", &source, &lcase.spec, &Injection::none(), 1);
+            rep.eval();
+            if !lobs.exit.ok() {
+                return Err(format!("library compress failed: {}", lobs.tail));
+            }
+            let larch = lobs.archive.ok_or("library writer left no archive")?;
+            let rt = crate::exec::rt_multi(1);
+            let r = crate::util::catch(|| rt.block_on(crate::lib_drv::lib_clone_io(Arc::new(larch), FragPlan::All, PendPlan::Never, &[], 2))).and_then(|x| x);
+            match r {
+                Err(e) => return Err(format!("library round trip of the corner source failed: {}", e)),
+                Ok((f, _)) => judge_output(Some(f.data), &source, "lib-io")?,
+            }
             Ok(hit)
         })();
         match r {
